@@ -9,6 +9,8 @@ Two streams of programs (DESIGN.md "### C08"):
               implementation is checked (tree2 = tree1 modulo positions, text2 = text1).
 Programs that do not parse are skipped by the judge (`adv source-does-not-parse`) and counted.
 """
+import os as _os
+_REPO_ROOT = _os.environ.get("MECH_REPO", "/repo")   # testing aid (seeded runs); registered commands never set it
 import os, re
 from vlib.core import sx, q
 
@@ -173,6 +175,7 @@ class G:
                     if t < 0.2: ixs.append(("all",))
                     elif t < 0.4: ixs.append(self.range_(max(d, 1)))
                     else: ixs.append(self.formula(d - 1))
+                    if starts_colon(ixs[-1]): ixs[-1] = ("paren", ixs[-1]) if ixs[-1][0] not in ("range", "rangei") else ("all",)
                 out.append(("brk", ixs))
         return out
 
@@ -236,6 +239,14 @@ def starts_ident(e):
     if t == "lit": return e[1] == "bool"
     if t == "trans": return starts_ident(e[1])
     if t in ("term", "range", "rangei"): return starts_ident(e[1])
+    return False
+
+
+def starts_colon(e):
+    """the printed expression begins with `:` (atom literal): not expressible as the first thing of a bracket subscript entry"""
+    t = e[0]
+    if t == "lit": return e[1] == "atom"
+    if t in ("trans", "term", "range", "rangei"): return starts_colon(e[1])
     return False
 
 
@@ -480,7 +491,7 @@ def rust_strings(path):
 
 def mec_files():
     res = []
-    for root in ["/repo/docs", "/repo/examples", "/repo/tests", "/repo/machines", "/repo/mika"]:
+    for root in [(_REPO_ROOT + "/docs"), (_REPO_ROOT + "/examples"), (_REPO_ROOT + "/tests"), (_REPO_ROOT + "/machines"), (_REPO_ROOT + "/mika")]:
         for d, _, fs in os.walk(root):
             for f in fs:
                 if f.endswith(".mec"): res.append(os.path.join(d, f))
@@ -492,7 +503,7 @@ def corpus_programs():
     def add(kind, s):
         if s.strip() and s not in seen and len(s) < 60000:
             seen.add(s); out.append((kind, s))
-    for s in rust_strings("/repo/tests/interpreter.rs"): add("corpus-test", s)
+    for s in rust_strings((_REPO_ROOT + "/tests/interpreter.rs")): add("corpus-test", s)
     for f in mec_files():
         try: t = open(f, encoding="utf-8").read().replace("\r\n", "\n")
         except (OSError, UnicodeDecodeError): continue
